@@ -122,7 +122,7 @@ FACTORIES = {
         **({"c_n_clusters": 3} if ch.boolean("w", 0.2, "kw") else {}),
     ),
     "ApproximateNMFPredictor": lambda ch: ApproximateNMFPredictor(
-        force_positive=ch.choice("w", [False, True], "fp"), n_components=ch.integer("w", 1, 3, "nc"), **({"max_iter": 300} if ch.boolean("w", 0.5, "kw") else {})
+        force_positive=ch.choice("w", [False, True], "fp"), n_components=ch.choice("w", [1, 2, 3, None], "nc"), **({"max_iter": 300} if ch.boolean("w", 0.5, "kw") else {})
     ),
     "PiecewiseRegressor": lambda ch: PiecewiseRegressor(
         binner=ch.choice("w", [None, "bins", "tree"], "binner") if ch.boolean("w", 0.7, "b") else DecisionTreeRegressor(max_depth=2), estimator=ch.choice("w", [None, "x"], "e") and _reg(ch), n_jobs=ch.choice("w", [None, 2], "nj")
@@ -181,7 +181,7 @@ STR_DOMAIN = {
 # 'method' may only change on the sklapi wrappers around classifiers
 METHOD_CLASSES = ("SkBaseTransformLearner", "SkBaseTransformStacking")
 # parameters whose None may become an integer (and back)
-NONE_DOMAIN = {"random_state": [None, 0, 3], "n_jobs": [None, 1, 2]}
+NONE_DOMAIN = {"random_state": [None, 0, 3], "n_jobs": [None, 1, 2], "n_components": [None, 1, 2]}
 
 
 def _new_value(ch, key, old, cls_name=None):
@@ -443,6 +443,16 @@ def run(c, index, tier):
             sim.viol("construct-raised", (type(x).__name__, U.where_raised(x)), "constructing %s with a valid configuration raised %s" % (name, U.short_exc(x)))
             return
         insts.append(x)
+    # independently built instances own their nested objects
+    for a in range(len(insts)):
+        for b in range(a + 1, len(insts)):
+            common = set(_nested_objects(insts[a])) & set(_nested_objects(insts[b]))
+            if common:
+                sim.viol(
+                    "instances-share-object",
+                    ("at-construction",),
+                    "two independently constructed instances share %d nested estimator object(s): a set_params on one changes the other" % len(common),
+                )
     try:
         c.scenario["configs"] = [repr(x)[:160] for x in insts]
     except Exception as e:  # noqa: BLE001
